@@ -49,8 +49,8 @@ CHECKS = {
    text="Twin simulation: a node and a twin receive the same seeded history, the node additionally receives inputs failing at every pipeline stage (including late root/size mismatches after the block touched the working MMRs, and failing header batches); the failing call must leave head, roots, sizes and the unspent view unchanged, and every later result and state digest must equal the twin's.",
    technique="deterministic simulation: differential twin execution under injected invalid inputs"),
  "C13": dict(engine="chainsim", cat="exploration", ref="5/C13",
-   text="Seeded simulation over fork trees whose honest spends and locks sit exactly on the maturity / lock-height / NRD thresholds on every fork and byzantine blocks one step inside each threshold; honest blocks must be accepted (also when re-applied through a reorg), byzantine ones refused, across restarts and delivery orders.",
-   technique="deterministic simulation: seeded fork histories with threshold-boundary workloads against a per-branch rule model"),
+   text="Seeded simulation over fork trees whose honest spends and locks sit exactly on the maturity / lock-height / NRD thresholds on every fork and byzantine blocks one step inside each threshold; honest blocks must be accepted (also when re-applied through a reorg), byzantine ones refused, across restarts and delivery orders. Pool clause (every fourth case, poolsim): a real TransactionPool on a real chain receives seeded interleavings of spends of coinbases one block before / exactly at maturity and of lock heights next-block / beyond, with blocks and reorgs moving the thresholds; add_to_pool must refuse / accept exactly as the rule model says.",
+   technique="deterministic simulation: seeded fork histories and pool submission interleavings with threshold-boundary workloads against a per-branch rule model"),
  "C15": dict(engine="chainsim", cat="exploration", ref="5/C15",
    text="Seeded simulation: after every delivery (forks, reorgs, restarts) the committed bitmap root must equal an accumulator built from scratch over the reported unspent set and an independent re-implementation; a re-mined block committing to a bitmap with one flipped bit must be refused.",
    technique="deterministic simulation: seeded apply/rewind histories against a from-scratch bitmap commitment model"),
@@ -118,7 +118,7 @@ def main():
              "kind_free_text": "process-death fault enumeration at every labelled durable step, reopen oracle"},
             {"name": "wiresim", "path": "/verif/sim/src/wiresim.rs", "serves_properties": [p for p in claimed if p in ("C11", "C19")],
              "kind_free_text": "real p2p framing layer against a simulated peer over a lock-stepped loopback socket"},
-            {"name": "poolsim", "path": "/verif/sim/src/poolsim.rs", "serves_properties": [p for p in claimed if p == "C14"],
+            {"name": "poolsim", "path": "/verif/sim/src/poolsim.rs", "serves_properties": [p for p in claimed if p in ("C14", "C13")],
              "kind_free_text": "real chain + real transaction pool under seeded submission/block/reorg/eviction interleavings"},
             {"name": "pibdsim", "path": "/verif/sim/src/pibdsim.rs", "serves_properties": [p for p in claimed if p == "C16"],
              "kind_free_text": "real Segmenter/Desegmenter pair over a simulated lossy, reordering, corrupting network"},
